@@ -97,6 +97,8 @@ GroupZ(type, g, zOf(_)) == IF type = "Tsukamoto" THEN TsukamotoX(g.term, g.degre
 Weighted(cls, type, acts, aggr, zOf(_)) ==
   LET ty == IF type = "Automatic" THEN InferType(acts) ELSE type IN
   IF ty = "error" THEN [raises |-> TRUE, v |-> NaN]
+  \* a term that is not monotonic refuses the Tsukamoto inverse (Term.tsukamoto raises)
+  ELSE IF ty = "Tsukamoto" /\ \E i \in 1..Len(acts) : ~IsMonotonic(acts[i].term) THEN [raises |-> TRUE, v |-> NaN]
   ELSE LET g  == GroupedTerms(acts, aggr)
            \* a group whose weight is 0 contributes nothing (an activation with degree 0 never changes the result)
            ws == FoldSeq(LAMBDA e, acc : Add(acc, IF Eq(e.degree, Zero) THEN Zero ELSE Mul(e.degree, GroupZ(ty, e, zOf))),
